@@ -246,11 +246,7 @@ def _unit_anysize(model, n, ranks):
                                                                 "ranks": ranks, "game": [[[{"v": [25 + i, 1], "k": "float"}, {"v": [8 - j, 1], "k": "float"}] for j in range(5 - i)] for i in range(n)],
                                                                 "params": game.enc_params(md)}
                 meta = {"replay": rp, "fn": fn, "shape": shape}
-                if out[0] != "return":
-                    if isinstance(out[1], UncutLoopT):
-                        raise out[1]
-                    ctx.oblige(f"C14/{model}/{op}/any-team-size/returns{tag}@{shape}", False, meta=meta)
-                    return
+                T.guard(out)
                 ctx.oblige(f"C14/{model}/{op}/any-team-size/model-frame{tag}@{shape}", game.heap_unchanged(snap, ("model",)), meta=meta)
                 ok, parts = True, []
                 for tm, old in zip(teams, ids):
@@ -292,9 +288,7 @@ def _unit_anysize(model, n, ranks):
                 _do(mA, "rate", [T.SymTeam(ctx, S.rating_cls, i, tag="g1") for i in range(2)], None, **kw)
                 ra = _do(mA, op, mk_teams(ctx), ranks)
                 rb = _do(mB, op, mk_teams(ctx), ranks)
-                for o in (ra, rb):
-                    if o[0] != "return" and isinstance(o[1], UncutLoopT):
-                        raise o[1]
+                T.guard(ra, rb)
                 mk = lambda md: {"kind": "c14_history", "model": model, "op": op, "op1": "rate", "a": False, "b": b, "t": enc_model(md, "t") if use_t else None, "ranks": ranks,
                                  "clause": None, "game": [[[{"v": [25 + i, 1], "k": "float"}, {"v": [8 - j, 1], "k": "float"}] for j in range(5 - i)] for i in range(n)],
                                  "game1": [[[{"v": [20, 1], "k": "float"}, {"v": [7, 1], "k": "float"}]], [[{"v": [30, 1], "k": "float"}, {"v": [6, 1], "k": "float"}]]], "params": game.enc_params(md)}
